@@ -13,6 +13,9 @@ LIMITS = [None, 0, 1, 2, 3, 4, 10, 11, 12, 20]
 
 # ----------------------------------------------------------------------------- generator
 def gen_history(rng, tier):
+    if rng.random() < 0.04:
+        # no limit at all: more runs than any default limit (20) would keep
+        return [["run", None] for _ in range(rng.randint(22, 26))]
     if rng.random() < 0.2:
         # "fill" family: one limit kept for the whole history, enough consecutive runs to fill every slot and purge several
         # times (limits with two digits included: archive names do not sort like their numbers), a few deletions in between
@@ -296,7 +299,7 @@ def check(run):
                 ops, obs = shards[k][idx]
                 small = ops if run.oracle_hits else shrink(ops[:12], lambda c: model_disagrees(run, c)) if model_disagrees(run, ops[:12]) else ops
                 run.tie_broken("exec_trace = observed directory listings", case=small, impl=run_history(small)[0])
-    run.coverage["rule"] = ("seeded random histories of run(limit)/delete(k)/foreign(name) -- entries of reports/ named report-<k><suffix> (packed or renamed archives, files and directories) that are no archive slots --, limits in {none,0,1,2,3,4,10,11,12,20}, 20% of the histories fill every slot of one limit and purge several times; every history is "
+    run.coverage["rule"] = ("seeded random histories (4%: 22-26 runs without any limit) of run(limit)/delete(k)/foreign(name) -- entries of reports/ named report-<k><suffix> (packed or renamed archives, files and directories) that are no archive slots --, limits in {none,0,1,2,3,4,10,11,12,20}, 20% of the histories fill every slot of one limit and purge several times; every history is "
                             "executed by the real create_report_dir_with_rotation (30% through Project.create_report_dir when "
                             "limit=20) on a scratch directory with marker files and by Model.ReportDir.exec_trace inside Coq; "
                             "non-trivial = a run that removed at least one archive")
